@@ -59,7 +59,8 @@ def random_case(rng, n=None, with_dev=None, target=None, allow_nan=True, degener
         return [np.nan if (allow_nan and rng.random() < p) else v for v in vals]
     arche = rng.sample(['q_disc', 'q_cont', 'c_cat', 'c_num', 'o_ord', 'q_spike'], rng.choice([2, 3, 3, 4]))
     if variants and rng.random() < 0.5 and 'c_cat' in arche: arche = arche + ['c_cat2']          # a second categorical feature sharing its modality names with the first
-    if variants and rng.random() < 0.3: arche = arche + ['c_int']                                                      # a categorical feature stored in an int64 column
+    if variants and rng.random() < 0.3: arche = arche + ['c_int']
+    if variants and rng.random() < 0.3: arche = arche + ['c_float']                                                    # categorical codes stored in a FLOAT column (codes 1.0 .. 5.0, rare ones, missing values)                                                      # a categorical feature stored in an int64 column
     if degenerate: arche = arche[:2] + [degenerate if isinstance(degenerate, str) else rng.choice(DEGENERATE)]
     for a in arche:
         pn = rng.choice([0, 0, 0.08, 0.2])
@@ -76,6 +77,9 @@ def random_case(rng, n=None, with_dev=None, target=None, allow_nan=True, degener
             k = rng.choice([4, 5, 6]); cols[a] = maybe_nan([NAMES[(int(l * 3 + rng.random() * 1.5) + i) % k] for i, l in enumerate(latent)], pn); qualitative.append(a)
         elif a == 'c_int':
             k = rng.choice([3, 4]); cols[a] = [1 + min(k - 1, int(l * k + rng.random() * 0.9)) for l in latent]; qualitative.append(a)
+        elif a == 'c_float':
+            codes = [1.0, 2.0, 3.0, 4.0, 5.0]; w_ = [0.4, 0.3, 0.2, 0.07, 0.03]
+            cols[a] = maybe_nan([codes[min(4, int(l * 3 + rng.random() * 1.2))] if rng.random() < 0.7 else rng.choices(codes, w_)[0] for l in latent], 0.1); qualitative.append(a)
         elif a == 'c_num':
             pool = [1, 2.0, '3', 4.5, 'x']; k = rng.choice([3, 4, 5])
             cols[a] = maybe_nan([pool[min(k - 1, int(l * k + rng.random()))] for l in latent], pn); qualitative.append(a)
@@ -121,7 +125,7 @@ def random_case(rng, n=None, with_dev=None, target=None, allow_nan=True, degener
     else:
         yv = [round(l * 20 + rng.gauss(0, 4), 3) for l in latent]
     f32 = [c for c in cols if c.startswith('q_') and variants and rng.random() < 0.3]
-    df = pd.DataFrame({c: pd.Series(v, dtype=('float32' if c in f32 else float if c.startswith('q_') else 'int64' if c == 'c_int' else object)) for c, v in cols.items()})
+    df = pd.DataFrame({c: pd.Series(v, dtype=('float32' if c in f32 else float if (c.startswith('q_') or c == 'c_float') else 'int64' if c == 'c_int' else object)) for c, v in cols.items()})
     y = pd.Series(yv)
     case = dict(X=df.iloc[:n].reset_index(drop=True), y=y.iloc[:n].reset_index(drop=True), X_dev=None, y_dev=None, quantitative=quantitative, qualitative=qualitative,
                 ordinal=ordinal, values_orders=vo, target=target, origin=dict(kind='random', n=n, dev=with_dev))
@@ -141,14 +145,14 @@ def case_literal(case):
     """JSON-able literal from which the case can be rebuilt exactly (rebuild_case)"""
     def col(s): return [None if (isinstance(v, float) and math.isnan(v)) else (v.item() if hasattr(v, 'item') else v) for v in s.tolist()]
     out = dict(X={c: col(case['X'][c]) for c in case['X'].columns}, y=col(case['y']), quantitative=case['quantitative'], qualitative=case['qualitative'],
-               ordinal=case['ordinal'], values_orders=case['values_orders'], target=case['target'], float32=[c for c in case['X'].columns if str(case['X'][c].dtype) == 'float32'], int64=[c for c in case['X'].columns if str(case['X'][c].dtype) == 'int64'], index=[str(i) if not isinstance(i, (int, float)) else i for i in case['X'].index.tolist()])
+               ordinal=case['ordinal'], values_orders=case['values_orders'], target=case['target'], float32=[c for c in case['X'].columns if str(case['X'][c].dtype) == 'float32'], float64=[c for c in case['X'].columns if str(case['X'][c].dtype) == 'float64' and c not in case['quantitative']], int64=[c for c in case['X'].columns if str(case['X'][c].dtype) == 'int64'], index=[str(i) if not isinstance(i, (int, float)) else i for i in case['X'].index.tolist()])
     if case['X_dev'] is not None:
         out['X_dev'] = {c: col(case['X_dev'][c]) for c in case['X_dev'].columns}; out['y_dev'] = col(case['y_dev'])
     return out
 
 
 def rebuild_case(lit):
-    def frame(d): return pd.DataFrame({c: pd.Series([np.nan if v is None else v for v in vs], dtype=('float32' if c in lit.get('float32', []) else 'int64' if c in lit.get('int64', []) and None not in vs else float if c in lit['quantitative'] else object)) for c, vs in d.items()})
+    def frame(d): return pd.DataFrame({c: pd.Series([np.nan if v is None else v for v in vs], dtype=('float32' if c in lit.get('float32', []) else 'int64' if c in lit.get('int64', []) and None not in vs else float if (c in lit['quantitative'] or c in lit.get('float64', [])) else object)) for c, vs in d.items()})
     case = dict(X=frame(lit['X']), y=pd.Series(lit['y']), X_dev=None, y_dev=None, quantitative=lit['quantitative'], qualitative=lit['qualitative'], ordinal=lit['ordinal'],
                 values_orders=lit['values_orders'], target=lit['target'], origin=dict(kind='literal'))
     if 'X_dev' in lit: case['X_dev'] = frame(lit['X_dev']); case['y_dev'] = pd.Series(lit['y_dev'])
